@@ -1,6 +1,7 @@
 package main
 
 import (
+	"context"
 	"bytes"
 	"errors"
 	"fmt"
@@ -147,7 +148,11 @@ func producer(chunks [][]byte, fails bool) func(io.Writer) (int64, error) {
 			}
 		}
 		if fails {
-			return total, errProducer
+			// the identity of a producer's error must not matter: a sentinel, the end-of-file values a
+			// truncated source hands back (bare and wrapped), a cancelled context, a closed file
+			errs := []error{errProducer, io.EOF, fmt.Errorf("read chunk: connection closed: %w", io.EOF), io.ErrUnexpectedEOF,
+				context.Canceled, os.ErrClosed, io.ErrShortWrite, fmt.Errorf("wrapped: %w", errProducer)}
+			return total, errs[(int(total)+len(chunks))%len(errs)]
 		}
 		return total, nil
 	}
